@@ -551,7 +551,9 @@ class Builder:
             inner = Len(Lit('string', b'abc', None, t=STRING), t=INT)
         e = inner
         for _ in range(n):
-            e = Bin(self.pick(['+', '-', '*']), self.num_expr(0), Paren(e, t=INT), t=INT)
+            # a computed left operand has to be pushed while the right one is evaluated (a literal or local would not)
+            left = Paren(Bin(self.pick(['+', '-']), self.num_expr(0), Lit('int', self.integer(1, 9), None, t=INT), t=INT), t=INT)
+            e = Bin(self.pick(['+', '-', '*']), left, Paren(e, t=INT), t=INT)
         return [ExprStmt(Call('write', [Is(e, BYTE, t=BYTE)], t=EMPTY))]
 
     def scalar_types(self):
@@ -634,7 +636,11 @@ class Builder:
         else:
             n = self.integer(0, self.size['arr_len'])
             length = Lit('int', n, None, t=INT)
-            if self.chance(40):
+            if self.size.get('argv_vla') and el != STRING and self.chance(55) and not any(v.name == 'gvl' for sc in self.scopes for v in sc):
+                # run-time length taken from the command line (through a global): the length sweep of C04 drives it
+                length = Var('gvl', t=INT)
+                n = None
+            elif self.chance(40):
                 vs = self.vars_of(lambda v: is_arr(v.ty))
                 if vs:
                     v = self.pick(vs)
@@ -1224,6 +1230,9 @@ class Builder:
     def program(self):
         self.uninit_globals = []
         globs = self.gen_globals() if 'globals' in self.F else []
+        if self.size.get('argv_vla'):
+            globs.append(Decl(INT, False, 'gvl', Lit('int', 0, None, t=INT)))
+            self.globals.append(VarInfo('gvl', INT, const=False, frozen=True, is_global=True))
         # uninitialised global arrays are removed from visibility (contents unspecified)
         self.globals = [g for g in self.globals if g.name not in self.uninit_globals] if not self.size.get('use_uninit_globals') else self.globals
         self.mutators = {}
@@ -1269,8 +1278,13 @@ class Builder:
             if self.chance(50):
                 self.gen_func('!', ret=self.pick([EMPTY, INT]))
         params, vals = self.entry_signature()
+        if self.size.get('argv_vla'):
+            params = [Param(INT, False, 'vlen')] + [p for p in params if not is_arr(p.ty)][:2]
+            vals = [self.integer(0, self.size['arr_len'])] + [v for v in vals if not isinstance(v, list)][:2]
         self.size = dict(self.size, func_stmts=self.size['main_stmts'])
         self.gen_func('@', name='@is_you', ret=EMPTY, params=params)
+        if self.size.get('argv_vla'):
+            self.func_nodes[-1].body.stmts.insert(0, Assign(Var('gvl', t=INT), Var('vlen', t=INT)))
         # dump of all scalar globals at the end of main for observability (in its own
         # function so that locals shadowing globals cannot interfere)
         main = self.func_nodes[-1]
